@@ -499,6 +499,67 @@ theorem C16_kept_local_connection_dead_for_ever (ops : List HOp) (h : HNet) (y c
   C16_local_handle_needs_live_session K (hrun h ops).net y cid active b hb
     (fun l hl => (hrun_locDead ops h y cid hd).2 b l hb hl)
 
+/-! ### the reachable-state invariant survives handle operations -/
+
+/-- **C16, one client per id — also across operations on kept objects.** `ConnInv` (connection ids below the counter, two nodes
+holding the same id are each other's peers, a local-session id is nobody else's) is kept by `take` / `hexec` / `hdisc`, so every
+theorem stated for reachable states (`C16_one_client_per_id`, `C16_logoff_drops_client`, the orphan invariant) holds in every state
+reached by sequences that contain handle operations. -/
+theorem hstep_connInv (h : HNet) (op : HOp) (hi : ConnInv h.net) : ConnInv (hstep h op).1.net := by
+  have F := connShr_frame
+  have shrInv : ∀ m : Net, h.net.Shr m → ConnInv m := fun m hs =>
+    connInv_of_rel (F.rel_shr F.shr (F.rel_refl h.net) hs) (by rw [hs.nextId]; exact Nat.le_refl _) hi
+  cases op with
+  | base op => exact C16_conn_inv_step h.net op hi
+  | take x i =>
+    simp only [hstep]
+    split
+    · exact hi
+    · split
+      · exact hi
+      · split <;> exact hi
+  | hexec k c =>
+    simp only [hstep]
+    split
+    · exact hi
+    · rename_i x cn _
+      split
+      · cases hb : h.net.node x with
+        | none => simp only [handleExecLocalK, hb]; exact hi
+        | some b =>
+          rcases C16_local_handle_executes_iff (fun m => execCmd c m x) h.net x cn.id true b hb with ⟨_, _, _, h0⟩ | ⟨_, h0⟩
+          · rw [h0]; exact C16_conn_inv_step h.net (.req x c) hi
+          · rw [h0]; exact hi
+      · rename_i y' hp
+        rcases C16_remote_handle_outcomes (fun m => execCmd c m y') h.net x y' cn.id with
+          ⟨h0, _⟩ | ⟨a, b, _, _, _, _, _, _, ⟨_, _, h0, _⟩ | ⟨_, h0, _⟩⟩
+        · show ConnInv (handleExecRemoteK _ h.net x y' cn.id).1
+          rw [h0]; exact hi
+        · show ConnInv (handleExecRemoteK _ h.net x y' cn.id).1
+          rw [h0]
+          have h1 : ConnInv (h.net.upd y' (Node.touch cn.id h.net.time)) :=
+            connInv_of_rel (F.rel_upd (F.rel_refl h.net) y' _ (fun _ => ⟨List.Sublist.refl _, Or.inl rfl⟩)) (Nat.le_refl _) hi
+          exact C16_conn_inv_step _ (.req y' c) h1
+        · show ConnInv (handleExecRemoteK _ h.net x y' cn.id).1
+          rw [h0]; exact shrInv _ (shr_disconnect _ _ _ _)
+  | hdisc k =>
+    simp only [hstep]
+    split
+    · exact hi
+    · rename_i x cn _
+      split
+      · exact hi
+      · show ConnInv (handleDisconnect h.net x cn.id).1
+        unfold handleDisconnect
+        split
+        · exact hi
+        · exact shrInv _ (shr_disconnect _ _ _ _)
+
+theorem hrun_connInv (ops : List HOp) (h : HNet) (hi : ConnInv h.net) : ConnInv (hrun h ops).net := by
+  induction ops generalizing h with
+  | nil => exact hi
+  | cons op ops ih => exact ih (hstep h op).1 (hstep_connInv h op hi)
+
 /-! ### non-vacuity -/
 
 def hdemo : HNet := { net := { nodes := [{}, {}] } }
